@@ -1,10 +1,11 @@
 """C18 -- cached bytecode never makes a module run with the wrong instrumentation.
 
 Histories of *runs* over one temporary directory with bytecode writing ON.  Each run optionally edits
-one source first (strictly increasing mtime and a different size, so CPython's own (mtime, size)
-validation is never what saves the day), installs 0..2 hooks (subset of {pa, pb, pkg, pkg.sub}; checker
+one source first (a different size, and either a later mtime or the SAME mtime), optionally cuts off the cached
+files of one module (interrupted write; refusing to load them is acceptable, wrong instrumentation is not),
+optionally runs like 'python -B' (caches read, nothing written), installs 0..2 hooks (subset of {pa, pb, pkg, pkg.sub}; checker
 spy a / spy b / None), imports the modules in a drawn order (pa imports pb inside its body, pkg imports
-pkg.sub) and records, per module: instrumented?, by which checker?, which source version do its
+pkg.sub; 'pbad' has a syntax error and fails to import), uninstalls the hooks, imports 0..2 more modules plainly and records, per module: instrumented?, by which checker?, which source version do its
 functions run?  Model: instrumented iff hooked in THIS run, by THIS run's (most recent matching)
 checker, and the current version.  Quick tier: runs are simulated in one process (forest purged from
 sys.modules, Typechecker.lookup cleared, caches invalidated) and a few histories use real subprocesses;
@@ -38,6 +39,7 @@ ASSUMPTIONS = [
 ]
 
 MODS = ["pa", "pb", "pkg", "pkg.sub"]
+BAD = "pbad"  # a module with a syntax error: importing it fails (also under a hook), nothing else may be affected
 FILES = {"pa": "pa.py", "pb": "pb.py", "pkg": "pkg/__init__.py", "pkg.sub": "pkg/sub.py"}
 DEPS = {"pa": ["pb"], "pkg": ["pkg.sub"]}
 
@@ -70,8 +72,8 @@ def write_source(d, mod, version, stamp):
 
 RUNNER = r'''
 import importlib, json, sys
-sys.dont_write_bytecode = False
 spec = json.loads(sys.argv[1])
+sys.dont_write_bytecode = bool(spec.get("dont_write"))
 sys.path.insert(0, spec["dir"])
 import jaxtyping
 from jaxtyping import install_import_hook
@@ -80,9 +82,15 @@ mgrs = []
 for names, checker in spec["hooks"]:
     mgrs.append(install_import_hook(names, None if checker == "none" else "vf_spy18." + checker))
 for m in spec["order"]:
-    importlib.import_module(m)
+    try:
+        importlib.import_module(m)
+    except SyntaxError:
+        if m != "pbad":
+            raise
 for m in mgrs:
     m.uninstall()
+for m in spec.get("after", []):
+    importlib.import_module(m)
 out = {}
 for name in ["pa", "pb", "pkg", "pkg.sub"]:
     mod = sys.modules.get(name)
@@ -111,7 +119,7 @@ def classify(o):
 def run_subprocess(d, run):
     env = dict(os.environ)
     env.pop("PYTHONDONTWRITEBYTECODE", None)
-    r = subprocess.run([sys.executable, "-W", "ignore", "-c", RUNNER, json.dumps({"dir": d, "hooks": run["hooks"], "order": run["order"]})],
+    r = subprocess.run([sys.executable, "-W", "ignore", "-c", RUNNER, json.dumps({"dir": d, "hooks": run["hooks"], "order": run["order"], "after": run.get("after", []), "dont_write": run.get("dont_write", False)})],
                        capture_output=True, text=True, env=env, timeout=300)
     line = [l for l in r.stdout.splitlines() if l.startswith("VF18")]
     if not line:
@@ -125,13 +133,13 @@ def run_inprocess(d, run):
     from jaxtyping._import_hook import Typechecker, _JaxtypingFinder
 
     for name in list(sys.modules):
-        if name.split(".")[0] in ("pa", "pb", "pkg", "vf_spy18"):
+        if name.split(".")[0] in ("pa", "pb", "pkg", "vf_spy18", "pbad"):
             del sys.modules[name]
     sys.meta_path[:] = [f for f in sys.meta_path if not isinstance(f, _JaxtypingFinder)]
     Typechecker.lookup.clear()
     importlib.invalidate_caches()
     old_flag = sys.dont_write_bytecode
-    sys.dont_write_bytecode = False
+    sys.dont_write_bytecode = bool(run.get("dont_write"))  # like python -B: nothing is written, caches are still read
     sys.path.insert(0, d)
     try:
         import vf_spy18
@@ -141,12 +149,21 @@ def run_inprocess(d, run):
             mgrs.append(install_import_hook(names, None if checker == "none" else "vf_spy18." + checker))
         try:
             for m in run["order"]:
-                importlib.import_module(m)
+                try:
+                    importlib.import_module(m)
+                except SyntaxError:
+                    if m != BAD:
+                        raise
         except BaseException as e:  # noqa: BLE001
             return {"error": f"{type(e).__name__}: {e}"}
         finally:
             for m in mgrs:
                 m.uninstall()
+        try:
+            for m in run.get("after", []):
+                importlib.import_module(m)  # imported after every hook of this run was uninstalled: plain
+        except BaseException as e:  # noqa: BLE001
+            return {"error": f"after-uninstall import: {type(e).__name__}: {e}"}
         out = {}
         for name in MODS:
             mod = sys.modules.get(name)
@@ -189,6 +206,11 @@ def model_run(run, versions):
                 imp(dep)
 
     for m in run["order"]:
+        if m != BAD:
+            imp(m)
+    after = run.get("after", [])
+    run = dict(run, hooks=[])  # `imp` reads run["hooks"]: every hook of this run has been uninstalled by now
+    for m in after:
         imp(m)
     return loaded
 
@@ -202,16 +224,38 @@ def check_history(ctx, hist, mode):
         stamp = 1_600_000_000
         for m in MODS:
             write_source(d, m, 1, stamp)
+        with open(os.path.join(d, "pbad.py"), "w") as f:
+            f.write("def broken(:\n    pass\n")
         status_history = {m: [] for m in MODS}
         flags = set()
+        ever_damaged = [False]  # a cut-off cache file stays on disk until that module is compiled again
         for ri, run in enumerate(hist["runs"]):
             if run.get("edit"):
                 m = run["edit"]
                 versions[m] += 1
-                stamp += 100
+                if not run.get("same_mtime"):
+                    stamp += 100  # otherwise: same mtime, different size (same-second save, cp -p, rsync -t)
                 write_source(d, m, versions[m], stamp)
+            damaged = ever_damaged[0]
+            if run.get("damage"):
+                # an interrupted write: every cached file of that module is cut off after its 16-byte header + 8 bytes
+                pdir = os.path.join(d, os.path.dirname(FILES[run["damage"]]), "__pycache__")
+                stem = os.path.basename(FILES[run["damage"]])[:-3]
+                if os.path.isdir(pdir):
+                    for fn in os.listdir(pdir):
+                        if fn.startswith(stem + "."):
+                            fp = os.path.join(pdir, fn)
+                            data = open(fp, "rb").read()
+                            if len(data) > 40:
+                                open(fp, "wb").write(data[:24])
+                                damaged = ever_damaged[0] = True
+                                flags.add("damaged-pyc")
             exp = model_run(run, versions)
             got = run_subprocess(d, run) if mode == "subprocess" else run_inprocess(d, run)
+            if "error" in got and damaged and any(x in got["error"] for x in ("EOFError", "marshal", "bad marshal data", "ValueError")):
+                # refusing to load a cut-off cache file is what CPython itself does; the history ends here
+                flags.add("damaged-pyc-refused")
+                break
             if "error" in got:
                 raise Violation("run-failed", hist, f"run #{ri} {run} ({mode}) failed: {got['error']}")
             if set(got) != set(exp):
@@ -237,12 +281,16 @@ def check_history(ctx, hist, mode):
         shutil.rmtree(d, ignore_errors=True)
 
 
-names_st = st.lists(st.sampled_from(MODS), min_size=1, max_size=3, unique=True)
+names_st = st.lists(st.sampled_from(MODS + [BAD]), min_size=1, max_size=3, unique=True)
 hook_st = st.tuples(names_st, st.sampled_from(["a", "b", "none", "a"])).map(list)
 run_st = st.fixed_dictionaries({
     "edit": st.sampled_from([None, None, "pa", "pb", "pkg", "pkg.sub"]),
+    "same_mtime": st.sampled_from([False, False, True]),
+    "damage": st.sampled_from([None, None, None, None, "pa", "pb", "pkg.sub"]),
+    "dont_write": st.sampled_from([False, False, False, True]),
     "hooks": st.lists(hook_st, min_size=0, max_size=2),
-    "order": st.lists(st.sampled_from(MODS), min_size=1, max_size=4, unique=True),
+    "order": st.lists(st.sampled_from(MODS + [BAD]), min_size=1, max_size=4, unique=True),
+    "after": st.lists(st.sampled_from(MODS), max_size=2, unique=True),
 })
 hist_st = st.fixed_dictionaries({"runs": st.lists(run_st, min_size=2, max_size=5)})
 
